@@ -242,7 +242,8 @@ func runScript(sc *Scenario, ro runOpts) *runResult {
 				switch {
 				case op.Kind == OpStopClock:
 					// StopTimeoutClock polls every p/2 and needs the clock task to notice: 5p + 2T (+ scheduling slack)
-					if fair && cfg.StallProb == 0 && cfg.SyncStallProb == 0 {
+					// (op.N == 1: a timed call is started on purpose while this Stop waits; it then waits for that deadline, too)
+					if fair && cfg.StallProb == 0 && cfg.SyncStallProb == 0 && op.N == 0 {
 						vDead = r.T0 + 5*p + 2*tickNs + cfg.Jitter*3 + (400+2*schedSlack)*maxCost
 					}
 				case op.Kind == OpIdle:
